@@ -8,6 +8,7 @@ use hx_common::guard::GuardBuf;
 use star_frame::prelude::ProgramError;
 use star_frame::unsize::wrapper::{DataMutDrop, UnsizedDataMut, UnsizedTypeDataAccess};
 use std::cell::{Cell, RefCell};
+use std::rc::Rc;
 
 pub const MAX_INCREASE: usize = 10240;
 pub const CANARY: usize = 12 * 1024;
@@ -213,6 +214,8 @@ pub trait Backing: 'static {
     /// a fresh `SharedWrapper` can be taken while exclusive accessors are live
     const SHARED_WHILE_EXCLUSIVE: bool;
     fn create(initial: &[u8], refuse: Vec<u32>, guard: bool, end_aligned: bool) -> Option<Box<Self>>;
+    /// two buffers for a swap case (C03): `A`, `B`
+    fn create_pair(a: &[u8], b: &[u8], end_aligned: bool) -> Option<(Box<Self>, Box<Self>)>;
     fn da(&self) -> &Self::A;
     fn len(&self) -> usize;
     fn cap(&self) -> usize;
@@ -229,6 +232,8 @@ pub trait Backing: 'static {
     fn realloc_log(&self) -> Vec<(usize, usize, bool)>;
     fn snapshot(&self) -> Frame;
     fn frame_ok(&self, snap: &Frame, from: usize) -> bool;
+    /// after a swap: everything that belongs to neither buffer of the case unchanged?
+    fn slack_ok(&self, snap: &Frame) -> bool;
     fn canary_ok(&self) -> bool;
 }
 
@@ -237,6 +242,9 @@ impl Backing for Access {
     const SHARED_WHILE_EXCLUSIVE: bool = true;
     fn create(initial: &[u8], refuse: Vec<u32>, guard: bool, end_aligned: bool) -> Option<Box<Self>> {
         Some(Box::new(if guard { Access::new_guard(initial, refuse, end_aligned) } else { Access::new(initial, refuse) }))
+    }
+    fn create_pair(a: &[u8], b: &[u8], end_aligned: bool) -> Option<(Box<Self>, Box<Self>)> {
+        Some((Box::new(Access::new_guard(a, vec![], end_aligned)), Box::new(Access::new_guard(b, vec![], end_aligned))))
     }
     fn da(&self) -> &Access {
         self
@@ -277,6 +285,9 @@ impl Backing for Access {
     fn frame_ok(&self, snap: &Frame, from: usize) -> bool {
         Access::frame_ok(self, snap, from)
     }
+    fn slack_ok(&self, snap: &Frame) -> bool {
+        Access::slack_ok(self, snap)
+    }
     fn canary_ok(&self) -> bool {
         Access::canary_ok(self)
     }
@@ -288,17 +299,26 @@ impl Backing for Access {
 use hx_native::{key_from, AcctSpec, World, STATIC_ACCOUNT_DATA};
 use star_frame::prelude::AccountInfo;
 
-/// Serialized runtime input with three accounts: a predecessor, the account under test, and a canary
-/// account right behind it (its header + data are the "next account image"). The refusal of growth comes
-/// from the real `AccountInfo::resize_unchecked` limit (`orig + 10240`); there is no schedule.
+/// Serialized runtime input with a predecessor account, the account(s) under test, and a canary account
+/// right behind (its header + data are the "next account image"). The refusal of growth comes from the
+/// real `AccountInfo::resize_unchecked` limit (`orig + 10240`); there is no schedule.
+///
+/// Plain cases: `[prev, X, next]`. Swap cases (`create_pair`): `[prev, A, B, next]` in ONE input buffer —
+/// `B` is serialized DIRECTLY BEHIND `A` (B's data starts `pad8 + 8 + 88` bytes after A's allocation end),
+/// both backings share the `World`.
 pub struct AcctBacking {
-    world: World,
+    world: Rc<World>,
+    /// index of this account in the world
+    idx: usize,
     orig: usize,
     /// start of the whole input buffer and its length
     buf_base: *const u8,
     buf_len: usize,
     /// offset of the account's data within the buffer
     data_off: usize,
+    /// (data offset, capacity) of every account under test of the case (this one and, in a swap case, its
+    /// partner): what may legitimately change after a swap
+    tested: Vec<(usize, usize)>,
     limit_now: Cell<bool>,
     reallocs_now: Cell<u32>,
     grow_calls: Cell<u32>,
@@ -318,6 +338,58 @@ impl AcctBacking {
     fn whole(&self) -> &[u8] {
         unsafe { std::slice::from_raw_parts(self.buf_base, self.buf_len) }
     }
+
+    /// `[prev, tested…, next]`; one backing per tested account
+    fn build(tested: &[&[u8]]) -> Option<Vec<Box<AcctBacking>>> {
+        let owner = key_from(99);
+        let prev: Vec<u8> = (0..PREV_DATA).map(|i| (i as u8).wrapping_mul(29) ^ 0xA5).collect();
+        let next: Vec<u8> = (0..NEXT_DATA).map(|i| b"NEXT-ACCOUNT-DATA/"[i % 18] ^ ((i / 18) as u8).wrapping_mul(41)).collect();
+        let mut specs = vec![AcctSpec::new(key_from(1), owner).data(prev).lamports(11).writable(true)];
+        for (k, d) in tested.iter().enumerate() {
+            specs.push(AcctSpec::new(key_from(2 + k as u64), owner).data(d.to_vec()).lamports(22 + k as u64).writable(true));
+        }
+        specs.push(AcctSpec::new(key_from(2 + tested.len() as u64), owner).data(next).lamports(33).writable(true));
+        let world = Rc::new(World::new(&specs));
+        // layout of hx_native::World::with_ix: n(8), then per account header(88) data pad(10240) align(8) rent_epoch(8), ix len(8), program id(32)
+        let mut off = 8 + acct_span(PREV_DATA);
+        let mut offs = vec![];
+        for d in tested {
+            offs.push((off + STATIC_ACCOUNT_DATA, d.len() + MAX_INCREASE));
+            off += acct_span(d.len());
+        }
+        let buf_len = off + acct_span(NEXT_DATA) + 8 + 32;
+        let buf_base = unsafe { world.raw_region(1).as_ptr().sub(offs[0].0) };
+        // cross-check the layout assumption against the World's own view of every account
+        if world.raw_region(0).as_ptr() as usize != buf_base as usize + 8 + STATIC_ACCOUNT_DATA {
+            return None;
+        }
+        for (k, (o, _)) in offs.iter().enumerate() {
+            if world.raw_region(1 + k).as_ptr() as usize != buf_base as usize + o {
+                return None;
+            }
+        }
+        Some(
+            tested
+                .iter()
+                .enumerate()
+                .map(|(k, d)| {
+                    Box::new(AcctBacking {
+                        world: world.clone(),
+                        idx: 1 + k,
+                        orig: d.len(),
+                        buf_base,
+                        buf_len,
+                        data_off: offs[k].0,
+                        tested: offs.clone(),
+                        limit_now: Cell::new(false),
+                        reallocs_now: Cell::new(0),
+                        grow_calls: Cell::new(0),
+                        log: RefCell::new(vec![]),
+                    })
+                })
+                .collect(),
+        )
+    }
 }
 
 impl Backing for AcctBacking {
@@ -328,42 +400,19 @@ impl Backing for AcctBacking {
             // a real account cannot refuse by schedule
             return None;
         }
-        let owner = key_from(99);
-        let prev: Vec<u8> = (0..PREV_DATA).map(|i| (i as u8).wrapping_mul(29) ^ 0xA5).collect();
-        let next: Vec<u8> = (0..NEXT_DATA).map(|i| b"NEXT-ACCOUNT-DATA/"[i % 18] ^ ((i / 18) as u8).wrapping_mul(41)).collect();
-        let specs = [
-            AcctSpec::new(key_from(1), owner).data(prev).lamports(11).writable(true),
-            AcctSpec::new(key_from(2), owner).data(initial.to_vec()).lamports(22).writable(true),
-            AcctSpec::new(key_from(3), owner).data(next).lamports(33).writable(true),
-        ];
-        let world = World::new(&specs);
-        let orig = initial.len();
-        // layout of hx_native::World::with_ix: n(8), then per account header(88) data pad(10240) align(8) rent_epoch(8), ix len(8), program id(32)
-        let data_off = 8 + acct_span(PREV_DATA) + STATIC_ACCOUNT_DATA;
-        let buf_len = 8 + acct_span(PREV_DATA) + acct_span(orig) + acct_span(NEXT_DATA) + 8 + 32;
-        let region = world.raw_region(1).as_ptr();
-        let buf_base = unsafe { region.sub(data_off) };
-        // cross-check the layout assumption against the World's own view of account 0
-        if world.raw_region(0).as_ptr() as usize != buf_base as usize + 8 + STATIC_ACCOUNT_DATA {
-            return None;
-        }
-        Some(Box::new(AcctBacking {
-            world,
-            orig,
-            buf_base,
-            buf_len,
-            data_off,
-            limit_now: Cell::new(false),
-            reallocs_now: Cell::new(0),
-            grow_calls: Cell::new(0),
-            log: RefCell::new(vec![]),
-        }))
+        AcctBacking::build(&[initial])?.pop()
+    }
+    fn create_pair(a: &[u8], b: &[u8], _end_aligned: bool) -> Option<(Box<Self>, Box<Self>)> {
+        let mut v = AcctBacking::build(&[a, b])?;
+        let b = v.pop()?;
+        let a = v.pop()?;
+        Some((a, b))
     }
     fn da(&self) -> &AccountInfo {
-        self.world.info(1)
+        self.world.info(self.idx)
     }
     fn len(&self) -> usize {
-        self.world.info(1).data_len()
+        self.world.info(self.idx).data_len()
     }
     fn cap(&self) -> usize {
         self.orig + MAX_INCREASE
@@ -427,6 +476,21 @@ impl Backing for AcctBacking {
         ok &= now[hdr + 8..hdr + 80] == snap.alloc[hdr + 8..hdr + 80];
         ok &= now[self.data_off + from..] == snap.alloc[self.data_off + from..];
         ok
+    }
+    /// Everything in the input buffer unchanged, except — for every account under test of the case — its
+    /// borrow-state byte, `resize_delta`, `data_len` and its allocation `[data, data + orig + 10240)`.
+    fn slack_ok(&self, snap: &Frame) -> bool {
+        let now = self.whole();
+        let mut pos = 0usize;
+        let mut ok = true;
+        for (d, cap) in &self.tested {
+            let hdr = d - STATIC_ACCOUNT_DATA;
+            ok &= now[pos..hdr] == snap.alloc[pos..hdr];
+            ok &= now[hdr + 1..hdr + 4] == snap.alloc[hdr + 1..hdr + 4];
+            ok &= now[hdr + 8..hdr + 80] == snap.alloc[hdr + 8..hdr + 80];
+            pos = d + cap;
+        }
+        ok && now[pos..] == snap.alloc[pos..]
     }
     fn canary_ok(&self) -> bool {
         true
